@@ -451,7 +451,7 @@ def main(args):
     rep.bounds = {'char': 'one character over 0..0x10FFFF, deletechars empty (exhaustive over code points by symbolic ranges)',
                   'str': [list(s) for s in shapes], 'module_units': len([u for u in units if u['kind'] == 'module']),
                   'module_rotation': 'quick tier: 8 fixed modules + every 4th module selected by VERIF_SEED; thorough: all modules, all corpus lengths'}
-    deadline = time.time() + (330 if tier == 'quick' else common.THOROUGH_S)
+    deadline = time.time() + (common.QUICK_S if tier == 'quick' else common.THOROUGH_S)
 
     def progress(done, total, res):
         if args.verbose:
